@@ -2,6 +2,7 @@
 From Coq Require Import List NArith ZArith Bool Arith String.
 Import ListNotations.
 Require Import Scan Pos DQ.
+Require Emit EmitGrows EmitLemmas EmitPrefix.
 
 (* KIND C05_double_quoted_scalar_roundtrip : U *)
 (* for EVERY text t over printable ASCII (spaces, apostrophes included), the 15 single-letter escapes and \xHH code points,
@@ -12,6 +13,14 @@ Theorem C05_double_quoted_scalar_roundtrip : forall t tail s,
   exists tok s', scan_flow_scalar true s = Ok (tok, s') /\ t_kind tok = TScalar t false SDouble /\ rest s' = tail.
 Proof. exact dq_roundtrip. Qed.
 Eval vm_compute in "ASSUME:C05_double_quoted_scalar_roundtrip"%string. Print Assumptions C05_double_quoted_scalar_roundtrip.
+
+(* KIND C05_emit_prefix_monotone : U *)
+(* the emitter model's output is append-only (46 generated lemmas, one per function of Model/Emit.v: every run - returning, raising EmitterError or crashing - only
+   conses chunks onto the output).  Hence for ALL event lists and ALL states: the chunks written for a prefix of the events are a prefix of the chunks written for
+   the whole stream, also when the run ends in an error *)
+Theorem C05_emit_prefix_monotone : forall es1 es2 s, exists d, fst (Emit.emit_all (es1 ++ es2)%list s) = (fst (Emit.emit_all es1 s) ++ d)%list.
+Proof. exact EmitPrefix.l_emit_prefix_monotone. Qed.
+Eval vm_compute in "ASSUME:C05_emit_prefix_monotone"%string. Print Assumptions C05_emit_prefix_monotone.
 
 (* PARTIAL (FULL: forall v opts, load (dump v opts) ~ v): only the double-quoted scalar layer (the universal fallback style)
    without folding is a theorem.  Value<->node, node<->event and the other four scalar styles are decided by the
